@@ -165,4 +165,17 @@ theorem ranks_sum (x : List Rat) : (ranks x).sum = (x.length : Rat) * ((x.length
 /-- non-vacuity / sanity: heavy ties -/
 example : ranks [3, 1, 3, 2, 1, 3] = [5, 3/2, 5, 3, 3/2, 5] := by decide +kernel
 
+/-- ranking a rearrangement of the data gives the same rearrangement of the ranks: `spearman_corr` may rank first and
+    permute afterwards -/
+theorem ranks_perm_map (x y : List Rat) (h : x.Perm y) : ranks y = y.map (rankOf x) := by
+  rw [ranks_eq_map]
+  apply List.map_congr_left
+  intro v _
+  exact (rankOf_perm x y h v).symm
+
+theorem ranks_perm (x y : List Rat) (h : x.Perm y) : (ranks x).Perm (ranks y) := by
+  rw [ranks_perm_map x y h, ranks_eq_map]
+  exact h.map _
+
+
 end PV.Ranks
